@@ -183,7 +183,7 @@ fn main() {
         let dir = out.join(format!("k{}-{}-{:03}", ks, bloom, n));
         let (d2, b2, bl) = (dir.clone(), beh.clone(), bloom.clone());
         let r = rt.block_on(async move {
-            match ks { 4 => run::<4>(d2, bl, b2, nkeys).await, 8 => run::<8>(d2, bl, b2, nkeys).await, 32 => run::<32>(d2, bl, b2, nkeys).await, _ => Err("unsupported key size".into()) }
+            match ks { 4 => run::<4>(d2, bl, b2, nkeys).await, 8 => run::<8>(d2, bl, b2, nkeys).await, 16 => run::<16>(d2, bl, b2, nkeys).await, 32 => run::<32>(d2, bl, b2, nkeys).await, _ => Err("unsupported key size".into()) }
         });
         match r { Ok(()) => kept += 1, Err(e) => { eprintln!("skipped behaviour {n}: {e}"); let _ = std::fs::remove_dir_all(&dir); } }
     }
